@@ -227,6 +227,17 @@ def run(ctx) -> None:
 
     # ---------------------------------------------------------------- R26.3
     r3 = ctx.rule("R26.3", "re-embedding uses each system's own index map; spin channels paired", min_instances=2)
+    # every matrix of the interpolated system is the affine mix: nothing in interpolate() may afterwards re-derive matrices from one end point's
+    # settings (set_soc_axis rebuilds Ham_SOC and SS from the axis / scale stored on the object, which is system0's copy)
+    for cls_i in ("SystemInterpolator", "SystemInterpolatorSOC"):
+        fi_ = idx.cls(IP, cls_i).methods.get("interpolate")
+        if fi_ is None:
+            continue
+        for c_ in ast.walk(fi_.node):
+            if isinstance(c_, ast.Call) and isinstance(c_.func, ast.Attribute) and c_.func.attr in ("set_soc_axis", "set_soc_R", "set_spin_pairs", "set_spin_interlaced"):
+                r3.violation(fi_, c_, f"`{norm1(c_, 80)}` in {cls_i}.interpolate re-derives matrices of the new system from settings stored on it (a copy of system0's): "
+                             f"the linearly mixed Ham_SOC / SS are overwritten, so interpolate(1) no longer reproduces system1 when the two systems were set up with "
+                             f"different axes or scales")
     init_i = inline_private_helpers(idx, init)
     IS2 = Sem(idx, init_i)
     icfg, idu, ipm = IS2.cfg, IS2.du, IS2.pm
